@@ -708,6 +708,13 @@ func (c *Ctx) ChildrenDescendedOnEveryPath(ob *core.Obligation, rels map[string]
 							if fn.Signature.Results().Len() == 0 {
 								continue
 							}
+							// leaving because an amount is zero: there is nothing left to hand on
+							if pc.Requires(ret.Block(), func(l core.Lit) bool {
+								_, ord, ok := cmp3Literal(l)
+								return ok && ord == "eq0"
+							}) {
+								continue
+							}
 							if core.ReachableAvoiding(entry, ret.Block(), avoid) {
 								bad = ret.Pos()
 							}
@@ -877,6 +884,12 @@ func (c *Ctx) NoReadBeforeFetch(ob *core.Obligation, entry, fetch *ssa.Function,
 		if errv == nil || errv.Referrers() == nil {
 			return false
 		}
+		// the callee's error is this function's own result: its callers deal with it
+		if ret, ok := call.Block().Instrs[len(call.Block().Instrs)-1].(*ssa.Return); ok {
+			if fe := errIndex(f.Signature); fe >= 0 && fe < len(ret.Results) && ret.Results[fe] == errv {
+				return true
+			}
+		}
 		for _, r := range *errv.Referrers() {
 			bo, ok := r.(*ssa.BinOp)
 			if !ok || (bo.Op != token.NEQ && bo.Op != token.EQL) || bo.Referrers() == nil {
@@ -923,33 +936,43 @@ func (c *Ctx) NoReadBeforeFetch(ob *core.Obligation, entry, fetch *ssa.Function,
 		}
 		return fb, fi
 	}
+	// first the mustFetch summaries, to their fixpoint ...
 	for iter := 0; iter < 20; iter++ {
 		changed := false
 		for _, f := range fns {
-			if len(f.Blocks) == 0 {
+			if len(f.Blocks) == 0 || mustFetch[f] {
 				continue
 			}
-			fb, fi := fetchBlockUpTo(f)
-			// mustFetch
-			if !mustFetch[f] && len(fb) > 0 {
-				mf := true
-				for _, ret := range core.Returns(f) {
-					if errorReturn(f, ret, pcOf(f)) {
-						continue // mustFetch speaks of the successful returns
-					}
-					if !fb[ret.Block()] && core.ReachableAvoiding(f.Blocks[0], ret.Block(), fb) {
-						mf = false
-					}
+			fb, _ := fetchBlockUpTo(f)
+			if len(fb) == 0 {
+				continue
+			}
+			mf := true
+			for _, ret := range core.Returns(f) {
+				if errorReturn(f, ret, pcOf(f)) {
+					continue // mustFetch speaks of the successful returns
 				}
-				if mf && len(core.Returns(f)) > 0 {
-					mustFetch[f] = true
-					changed = true
+				if !fb[ret.Block()] && core.ReachableAvoiding(f.Blocks[0], ret.Block(), fb) {
+					mf = false
 				}
 			}
-			// readsUnfetched
-			if unfetched[f] || f == fetch {
+			if mf && len(core.Returns(f)) > 0 {
+				mustFetch[f] = true
+				changed = true
+			}
+		}
+		if !changed {
+			break
+		}
+	}
+	// ... then who reads before any fetch
+	for iter := 0; iter < 20; iter++ {
+		changed := false
+		for _, f := range fns {
+			if len(f.Blocks) == 0 || unfetched[f] || f == fetch {
 				continue // the fetch function is atomic: what it looks up in the cache is part of fetching
 			}
+			fb, fi := fetchBlockUpTo(f)
 			for _, ci := range core.Calls(f) {
 				reads := false
 				for _, sc := range c.calleesOf(f, ci) {
